@@ -94,8 +94,9 @@ class Repo:
     """Parsed view of <root>/moPepGen."""
     PKG = 'moPepGen'
 
-    def __init__(self, root: str):
+    def __init__(self, root: str, overlay: Optional[Dict[str, str]] = None):
         self.root = os.path.abspath(root)
+        self.overlay = overlay or {}       # relpath -> source text used instead of the file (mutation sweeps)
         self.modules: Dict[str, ModuleInfo] = {}
         self.functions: Dict[str, FuncInfo] = {}
         self.classes: Dict[str, ClassInfo] = {}
@@ -117,8 +118,11 @@ class Repo:
                     continue
                 p = os.path.join(d, f)
                 rel = os.path.relpath(p, self.root)
-                with open(p, 'rt', encoding='utf-8') as h:
-                    src = h.read()
+                if rel in self.overlay:
+                    src = self.overlay[rel]
+                else:
+                    with open(p, 'rt', encoding='utf-8') as h:
+                        src = h.read()
                 try:
                     tree = ast.parse(src, filename=rel)
                 except SyntaxError as e:
